@@ -21,7 +21,7 @@ func fuzzWith(f *testing.F, locals bool) {
 		if locals {
 			o = optsLocals
 		}
-		c := Case{Model: steer(r, t, o)}
+		c := genCase(r, t, o)
 		if err := vf.Guard(func() error { return checkWith(c, &vf.Obs{}, r) }); err != nil {
 			t.Fatalf("%v", err)
 		}
